@@ -135,6 +135,7 @@ def expectation(kind, case, fitted_tokens=None, data=None):
         return lambda t, rr=rr: int(rr[t])
     e.blocks = rc.expand_blocks(specs, radius_fn)
     nw = case.get("normalize_windows", True)
+    rc.OCCURRENCES = []
     if kind == "token":
         e.cells = rc.token_ref(e.seqs, e.blocks, nw, e.n_cols, e.nullified)
     elif kind == "timed":
@@ -145,6 +146,7 @@ def expectation(kind, case, fitted_tokens=None, data=None):
         e.cells = rc.multi_ref(e.seqs, e.blocks, nw, e.n_cols, e.nullified)
     else:
         e.cells = rc.ngram_ref(e.seqs, e.blocks, nw, e.n_cols, e.ngram_rows, n, e.nullified)
+    e.occurrences, rc.OCCURRENCES = rc.OCCURRENCES, None
     e.col_labels = rc.column_labels(specs, e.tokens_in_order)
     return e
 
